@@ -71,6 +71,28 @@ def gen_case(st, tier):
     # evaluations in the middle of the history (a long-lived process: evaluate, load another spec package, evaluate again)
     case["eval_after"] = sorted(set(k for k in range(ncls - 1) if rp.random() < 0.25))
     case["active"] = rp.randrange(nctx)
+    if nctx >= 2 and rk.random() < 0.06:
+        # an override bound to its contexts only through a helper that depends on ANOTHER spec's registry point, where
+        # the helper was already in use (by an implementation of a third, unasserted spec) before that other spec got
+        # its implementation for a second context.  The override is registered last, so the contexts reachable below
+        # it are final.
+        a, b = rp.sample(range(nctx), 2)
+
+        def im(bind, ctxs, out=None):
+            return {"h": rp.getrandbits(40), "hh": rp.getrandbits(40), "bind": bind, "ctxs": sorted(ctxs),
+                    "out": out or rf.choice(OUTS), "elems": rp.choice([1, 2, 3])}
+        case["rps"] = [{"name": "r0", "h": rp.getrandbits(40), "multi": False, "ph": rp.getrandbits(40)},
+                       {"name": "r1", "h": rp.getrandbits(40), "multi": rp.random() < 0.25, "ph": rp.getrandbits(40)},
+                       {"name": "rz", "h": rp.getrandbits(40), "multi": False, "ph": rp.getrandbits(40), "unasserted": True}]
+        case["helper_h"] = {"on": "r0", "h": rp.getrandbits(40)}
+        case["classes"] = [
+            {"name": "D0", "parent": None, "impls": {"r0": im("one", [a], "value"), "r1": im("list", [a, b])}},
+            {"name": "D1", "parent": None, "impls": {"rz": im("via_h", [a], "value")}},
+            {"name": "D2", "parent": None, "impls": {"r0": im("one", [b], rf.choice(["value", "value", "value", "skip"]))}},
+            {"name": "D3", "parent": None, "impls": {"r1": im("via_h", [a, b])}},
+        ]
+        case["eval_after"] = sorted(set(k for k in range(3) if rp.random() < 0.2))
+        case["active"] = b if rp.random() < 0.7 else rp.randrange(nctx)
     rs = st.sched
     k = rs.choice(["run", "run", "order", "incr", "all"])
     case["driver"] = {"kind": k}
@@ -118,6 +140,13 @@ class SpecWorld(object):
                 deps = [cs[0]]
             elif im["bind"] == "list":
                 deps = [list(cs)]
+            elif im["bind"] == "via_h" and case.get("helper_h") and case["helper_h"]["on"] in self.rps:
+                if self.helper_h is None:
+                    hh = case["helper_h"]
+                    self.helper_h = self.mk_ds("H." + hh["on"], hh["h"], [self.rps[hh["on"]]], "value")
+                deps = [self.helper_h]
+            elif im["bind"] == "via_h":
+                deps = [list(cs)]                  # (the shrinker removed the helper's spec: bound to its contexts directly)
             elif im["bind"] == "helper":
                 deps = [self.mk_ds(tag + ".helper", im["hh"], [cs[0]], "value")]
             else:
@@ -153,6 +182,7 @@ class SpecWorld(object):
             self.rps[r["name"]] = p
         self.base = type("VSpecs", (SpecSet,), body)
         self.impls = {}          # (class index, rp name) -> datasource object
+        self.helper_h = None
         self.classes = {}
         self.parsers = {}
         ev = self.ev
@@ -172,14 +202,27 @@ def expected(case, upto=None):
     a = case["active"]
     out = {}
     classes = case["classes"][:upto] if upto is not None else case["classes"]
+    hh = case.get("helper_h")
+    hon = hh["on"] if hh and any(r["name"] == hh["on"] for r in case["rps"]) else None
+
+    def eff(ci, im):
+        """Contexts an implementation is registered for: its own, or -- bound through the helper -- whatever the
+        implementations of the helper's spec registered BEFORE it are declared for."""
+        if im["bind"] == "via_h" and hon is not None:
+            out_ = set()
+            for c0 in classes[:ci]:
+                if hon in c0["impls"] and c0.get("parent") is None:
+                    out_ |= set(c0["impls"][hon]["ctxs"])
+            return out_
+        return set(im["ctxs"])
     for r in case["rps"]:
         rn = r["name"]
         # a class derived from an implementing class (not from the declaring one) registers nothing: its datasources are
         # not implementations of the spec (the code wires direct sub-classes only) and must never contribute
         regs = [(ci, c["name"], c["impls"][rn]) for ci, c in enumerate(classes) if rn in c["impls"] and c.get("parent") is None]
         second = ["%s.%s" % (c["name"], rn) for c in classes if rn in c["impls"] and c.get("parent") is not None]
-        cands = [(ci, cn, im) for ci, cn, im in regs if a in im["ctxs"]]
-        others = [(ci, cn, im) for ci, cn, im in regs if a not in im["ctxs"]]
+        cands = [(ci, cn, im) for ci, cn, im in regs if a in eff(ci, im)]
+        others = [(ci, cn, im) for ci, cn, im in regs if a not in eff(ci, im)]
         e = {"must_not_run": ["%s.%s" % (cn, rn) for ci, cn, im in cands[:-1]] + ["%s.%s" % (cn, rn) for ci, cn, im in others] + second,
              "second_level": second,
              "latest": None, "value": w1.ABSENT, "n_candidates": len(cands), "n_impls": len(regs)}
@@ -188,7 +231,10 @@ def expected(case, upto=None):
             tag = "%s.%s" % (cn, rn)
             e["latest"] = tag
             e["latest_out"] = im["out"]
-            if im["out"] == "value":
+            e["latest_runs"] = True
+            if im["bind"] == "via_h" and hon is not None and out.get(hon, {}).get("value", w1.ABSENT) == w1.ABSENT:
+                e["latest_runs"] = False          # its helper has nothing to work on: it cannot run, the spec is absent
+            elif im["out"] == "value":
                 e["value"] = ["value-%s-%d" % (tag, k) for k in range(im.get("elems", 1))] if r["multi"] else "value-" + tag
         out[rn] = e
     return out
@@ -261,7 +307,10 @@ def oracle(case, obs, upto=None):
         if e[0] == "parse":
             parsed.setdefault(e[1], []).append(e[2])
     actname = case["contexts"][case["active"]]["name"]
+    unasserted = set(r["name"] for r in case["rps"] if r.get("unasserted"))
     for rn, e in sorted(exp.items()):
+        if rn in unasserted:
+            continue          # (a spec whose only implementation hangs on the helper: there to put the helper to use early)
         shape = "impls=%d candidates=%d" % (e["n_impls"], e["n_candidates"])
         for tag in e["must_not_run"]:
             if tag in called:
@@ -273,7 +322,7 @@ def oracle(case, obs, upto=None):
                              "%s ran under active context %s although %s (%s)" % (
                                  tag, actname, "a later implementation for that context exists (%s)" % e["latest"]
                                  if case["active"] in im["ctxs"] else "it is declared for %s only" % im["ctxs"], shape)))
-        if e["latest"] is not None and e["latest"] not in called:
+        if e["latest"] is not None and e.get("latest_runs", True) and e["latest"] not in called:
             out.append(V("C05.resolution", "latest-implementation-not-executed",
                          "%s is the latest implementation for %s but did not run (%s)" % (e["latest"], actname, shape)))
         got = obs["rp"][rn]
